@@ -8,9 +8,10 @@ from .. import render as R
 
 CONSTS = {"MaxGroups": 1, "MaxSecs": 1, "TRIds": {1}, "Fault": "none", "EmitCases": False}
 LEAD = ["That part of the NE/4", "All that portion of the S/2", "A strip of land 100 feet wide across the W/2",
-        "That part of Lots 1 and 2"]
+        "That part of Lots 1 and 2", "SE/4", "That part of the highway RoW"]
+# (texts of exactly 4 characters sit on the documented reporting threshold and must still be kept)
 TRAIL = ["lying within RoW", "lying north of the river", "described in Book 52, Page 100",
-         "lying south and east of the county road"]
+         "lying south and east of the county road", "NE/4", "RoW1", "Lot 1"]
 
 
 def cases_for_doc(cid, abstract, rng):
@@ -46,14 +47,15 @@ def secwithin_cases(cid, kind, placement, rng):
     lead, trail = rng.choice(LEAD), rng.choice(TRAIL)
     sec = R.render_sec(nums, conns, False, rng)
     trtxt = R.render_tr(tr, rng)
+    glue = rng.choice([" of ", " in "])
     if placement == "before_colon":
-        text = "%s: %s of %s %s" % (trtxt, lead, sec, trail)
+        text = "%s: %s%s%s, %s" % (trtxt, lead, glue, sec, trail)
     elif placement == "before_nl":
-        text = "%s\n%s of %s %s" % (trtxt, lead, sec, trail)
+        text = "%s\n%s%s%s %s" % (trtxt, lead, glue, sec, trail)
     elif placement == "inside":
-        text = "%s of %s, %s %s" % (lead, sec, trtxt, trail)
+        text = "%s%s%s, %s, %s" % (lead, glue, sec, trtxt, trail)
     else:
-        text = "%s of %s %s, %s" % (lead, sec, trail, trtxt)
+        text = "%s%s%s %s, %s" % (lead, glue, sec, trail, trtxt)
     return {"id": cid, "kind": "c20",
             "abs": {"kind": "secwithin", "nums": nums, "conns": conns, "tr": tr},
             "args": {"mode": "secwithin", "text": text, "tr": tr, "expected_desc": "%s %s" % (lead, trail)}}
